@@ -66,6 +66,11 @@ CLAIMED = {
                 'unregistered names answer -32601; clean views expose exactly their public callables. Correspondence over exhaustive short histories and random deep merges, probed by dispatching every name, '
                 'names one edit away and private member names on both dispatchers.',
                 note='Kernel + standard axioms; dir() order / callable() / __name__ of members are declared per test class (oracle input); D21 (public alias of a private view member) and D24 (Method object in a prefixed registry) are recorded findings.'),
+    'C20': dict(ref='§4 C20', text='Lean theorems: the queue discipline in closed form (C20_round_robin: first |q| calls in order of addition, every later block of |keep q| calls by the surviving patches in the same order; '
+                'C20_once_exactly_once; C20_round_robin_mod), and the state machine: C20_step (head answers, that queue steps, every other queue and record untouched, the call recorded), add / replace / remove on the current queue, '
+                'request id carried incl. 0 and "", unpatched method -32601, unpatched endpoint passthrough / refused, batches element-wise. Tied by operation / call histories through the real PjRpcMocker '
+                'patching sync and async transport methods and the library\'s requests backend, against the model and an independent reference simulator.',
+                note='Kernel + standard axioms; dicts are modelled as association lists (absent queue = empty queue abstraction proved invariant under cleanup); histories are well-formed (replace / remove address existing patches).'),
     'C05': dict(ref='§4 C05', text='Lean theorems over the message model: from_json∘to_json = id up to falsy-params normalisation for requests, '
                 'responses, errors, batches and batch-level errors; to_json fixpoint; exact wire form; class-by-code. Tied to the code by the '
                 'msg correspondence suite (real constructors / to_json / JSON text through both encoders / from_json vs the model) and the constants translator.',
